@@ -3,7 +3,7 @@ site, no dynamic call in any generated body or generated signature of a static-d
 import re
 
 from ..common import Report
-from ..corpus import load
+from ..corpus import load, load_repo_tests
 from ..deleg import all_calls, walk, real_adjusts, callee_of
 from ..wrules import (is_mock_impl, FnModView, TraitView, ImplBlockView, trait_methods, impl_methods, in_macro, last_seg,
                       entrait_depth)
@@ -90,8 +90,10 @@ def run(tier):
     generator_rule(rep)
     configs = ["plain", "unimock_test"] if tier == "quick" else ["plain", "test", "unimock", "unimock_test"]
     programs = 0
-    for cfg in configs:
-        ld = load(rep, "pos", cfg)
+    loaded = [(cfg, load(rep, "pos", cfg)) for cfg in configs]
+    if tier == "thorough":
+        loaded.append(("unimock_test", load_repo_tests(rep)))
+    for cfg, ld in loaded:
         crate = ld.crate
         for exp in crate.expansions:
             key0 = exp.ident()
